@@ -2,21 +2,23 @@
    = single-cycle").  Only statements; every proof is [exact <lemma>].
 
    Scope of everything below: hazard detection ON, flat data memory, no instruction cache; the
-   initial state is [wf] (Proofs/C01Step.v: registers in range, flat memory, no icache, program of
-   [wf_instr] instructions, length <= 4096) and the pipeline starts empty ([pipe_init s true]).
+   initial state is [wf] (Proofs/C01Step.v: registers in [0,2^32) with x0 = 0, flat memory, no
+   icache, program of [wf_instr] instructions, length <= 4096, pc in range) and the pipeline starts
+   empty ([pipe_init s true]).  Programs consist of [supported] instructions (Proofs/SplitExec.v:
+   everything except ebreak, fence, csr*, csr*i).  These hypotheses are static properties of the
+   program and of the initial state; nothing is assumed about reachable states.
 
-   FULL TARGET (not yet proved in this generality):
+   THE TARGET, proved in full as [pipe_refines_single] below:
 
-     Theorem pipe_refines_single : forall P s n,
-       Forall (fun i => supported i = true) P -> wf s -> prog (im s) = P ->
+       forall P s n, Forall supported P -> wf s -> prog (im s) = P ->
        match single_run n s with
-       | (s', Done) => exists c p, (c <= 8 * n + 8)%nat /\
-           pipe_run c (pipe_init s true) = (p, PDone) /\ arch_agree p s' /\
-           pipe_trace c (pipe_init s true) = single_trace n s
-       | (s', Faulted f) => exists c p, (c <= 8 * n + 8)%nat /\
-           pipe_run c (pipe_init s true) = (p, PFaulted f) /\
-           regs (pst p) = regs s' /\ ms (pst p) = ms s' /\ out (pst p) = out s'
-       | (_, OutOfFuel) => True
+       | (s', Done)      => the pipeline run from the empty pipeline ends [PDone] within
+                            c <= 8 * n + 8 cycles in a state p with [arch_agree p s'], and the
+                            list of retired addresses equals the list of executed pcs
+       | (s', Faulted f) => the pipeline run ends [PFaulted f] — the same fault record: address,
+                            instruction and error — within c <= 8 * n + 8 cycles, with equal
+                            registers, memory system and output
+       | (_, OutOfFuel)  => no claim
        end.
 
    Vocabulary (Proofs/PipeInv.v, definitions only):
@@ -24,27 +26,50 @@
                        (both runs start from the same s, so equal icount = equal retired count)
      pipe_trace c p    the addresses found in latch 4 (WB output) after each step of the run, in order
      single_trace n s  the pcs at which the single-cycle run executed an instruction, in order
-     PFaulted f        the pipeline reports the SAME fault record: address, instruction and error
+   Consequences: termination of the pipeline whenever the single-cycle machine terminates (with the
+   linear cycle bound; the proof gives 5 * n + 5); and, since the final states and the retire lists
+   are equal, no instruction younger than a taken branch, a jump or an exiting ecall has any
+   architectural effect (wrong-path slots are fetched, decoded, possibly executed in EX, and flushed).
 
-   PROVED: the target for every program built from the straight-line classes
-     R-type, I-type, shifts, lui, auipc, loads, stores          ([straight i = true])
-   with arbitrary RAW hazards (interlock stalls at ID with countdown 2 and 1, self-hazards),
-   including faulting loads and stores (fault raised in MEM while younger instructions are in
-   flight and an older one retires in the same cycle).  Cycle bound obtained: 5 * n + 5.
+   HOW: the invariant [Inv P p s] of Proofs/PipeInv.v relates a pipeline state p to the single-cycle
+   state s reached after the instructions that have left WB: the non-empty latches 3,2,1,0 hold, oldest
+   first, the instructions the single-cycle machine executes next from s (same address, same
+   instruction), up to a "barrier" slot (one whose single-cycle step faults, exits or transfers
+   control) in latch 0..2 behind which slots are unconstrained wrong-path slots; registers are those
+   of s, memory and branch/call counters those of s advanced past latch 3, the output that of s
+   advanced past the slots that have fired in EX (an ecall that still carries its stall flag has
+   not); a slot in latch 1 holds the source operands of its own single-cycle pre-state whenever the
+   pipeline is not stalled (this is what the interlock buys), slots in latches 2 and 3 hold exactly the
+   EX / MEM results computed from those operands.  [inv_step] shows that one [pipe_step] either keeps
+   s (and decreases a measure <= 4) or retires the instruction the single-cycle machine executes from s,
+   or faults exactly when and where the single-cycle machine faults; the data-path theorem
+   [split_agrees] (Props/C02.v) is used once per retirement.
 
-   MISSING relative to the full target (stages 3-5 of the plan):
-     - control transfers: taken / not-taken branches, jal, jalr (flush from MEM, wrong-path slots,
-       stall cancelled by a flush);
-     - ecall: printing / exiting / faulting (drain stall at EX, triple flush of an exiting ecall);
-     - hence the statement for [supported] programs in general, and the corollary that no
-       instruction younger than a taken branch / jump / exiting ecall has an architectural effect.
-   The invariant [Inv] of Proofs/PipeInv.v is already stated for the general case (on-path prefix,
-   barrier slot, wrong-path slots behind it); what is proved is its preservation ([inv_step]) for
-   straight-line programs. *)
+   The proof was built in stages, each a theorem of its own (all below):
+     straight-line programs (R/I/shift/lui/auipc/load/store, all RAW hazards, faulting accesses),
+     + branches, jal, jalr (flush from MEM, wrong-path slots, stall cancelled by a flush),
+     + ecall (drain stall at EX, the ecall fires exactly once, print / exit with its three flushes /
+       fault). *)
 From ArchSim Require Import Model.Base Model.Mem Model.Cache Model.Fmt Model.RV Model.Single
   Model.RVSplit Model.Pipe Proofs.C01Step Proofs.SplitExec Proofs.PipeLaws Proofs.PipeShape
-  Proofs.PipeInv Proofs.PipeInvBase Proofs.PipeInvStages Proofs.PipeInvStraight.
+  Proofs.PipeInv Proofs.PipeInvBase Proofs.PipeInvStages Proofs.PipeInvStraight
+  Proofs.PipeInvControl Proofs.PipeInvEcall Proofs.PipeRefine.
 Open Scope Z_scope.
+
+(** ** The theorem *)
+Theorem pipe_refines_single : forall P s n,
+  Forall (fun i => supported i = true) P -> wf s -> prog (im s) = P ->
+  match single_run n s with
+  | (s', Done) => exists c p, (c <= 8 * n + 8)%nat /\
+      pipe_run c (pipe_init s true) = (p, PDone) /\ arch_agree p s' /\
+      pipe_trace c (pipe_init s true) = single_trace n s
+  | (s', Faulted f) => exists c p, (c <= 8 * n + 8)%nat /\
+      pipe_run c (pipe_init s true) = (p, PFaulted f) /\
+      regs (pst p) = regs s' /\ ms (pst p) = ms s' /\ out (pst p) = out s'
+  | (_, OutOfFuel) => True
+  end.
+Proof. exact pipe_refines_single_lem. Qed.
+Print Assumptions pipe_refines_single.
 
 (** ** The invariant holds initially *)
 Theorem inv_holds_initially : forall P s,
@@ -52,23 +77,43 @@ Theorem inv_holds_initially : forall P s,
 Proof. exact inv_init. Qed.
 Print Assumptions inv_holds_initially.
 
-(** ** One pipeline cycle preserves the invariant (straight-line programs)
-    Either the cycle retires nothing (latch 3 was a bubble; the measure [mu] decreases), or it
-    retires the instruction the single-cycle machine executes next; if it faults, the single-cycle
-    machine faults identically at the instruction after the ones retired. *)
-Theorem inv_step_straightline : forall P, Forall (fun i => straight i = true) P ->
+(** ** One pipeline cycle (any supported program, any of the five modes: not stalled, stalled at
+    ID with countdown 2 / 1, stalled at EX with countdown 2 / 1)
+    Either the cycle retires nothing (latch 3 was a bubble; the measure [mu4] decreases) and the
+    invariant holds for the same single-cycle state, or it retires the slot of latch 3, which is the
+    instruction the single-cycle machine executes next ([adv l3 s] is [nxt s]); the new state is in
+    the invariant or is the last cycle of an exiting ecall ([Exiting]).  If the cycle faults, the
+    single-cycle machine faults identically at its next instruction. *)
+Theorem inv_step : forall P, Forall (fun i => supported i = true) P ->
   forall p s l0 l1 l2 l3 l4 dead, InvAt P p s l0 l1 l2 l3 l4 dead -> pipe_done p = false ->
   match pipe_step p with
-  | (p', None) => Inv P p' (adv l3 s) /\ lat_at (lat p') 4 = option_map wb_slot l3 /\
-                  (l3 = None -> mu p' < mu p)
+  | (p', None) => (Inv P p' (adv l3 s) \/ Exiting P p' (adv l3 s)) /\
+                  lat_at (lat p') 4 = option_map wb_slot l3 /\ (l3 = None -> mu4 p' < mu4 p)
   | (p', Some f) => exists tm, single_pipeline_step (adv l3 s) = (tm, Some f) /\
                   single_done (adv l3 s) = false /\
                   regs (pst p') = regs tm /\ ms (pst p') = ms tm /\ out (pst p') = out tm
   end.
-Proof. exact inv_step. Qed.
-Print Assumptions inv_step_straightline.
+Proof. exact inv_step_e. Qed.
+Print Assumptions inv_step.
 
-(** ** Refinement, straight-line programs *)
+(* the last cycle of an exiting ecall: it retires, the exit code is set, both machines are done *)
+Theorem exiting_ecall_retires : forall P, Forall (fun i => supported i = true) P ->
+  forall p s, Exiting P p s ->
+  pipe_done p = false /\ single_done s = false /\
+  single_pipeline_step s = (nxt s, None) /\ single_done (nxt s) = true /\
+  exists p', pipe_step p = (p', None) /\ pipe_done p' = true /\ arch_agree p' (nxt s) /\
+             some_addr (lat_at (lat p') 4) = [pc s].
+Proof. exact exiting_step. Qed.
+Print Assumptions exiting_ecall_retires.
+
+(* the two machines stop together *)
+Theorem done_together : forall P p s l0 l1 l2 l3 l4 dead,
+  InvAt P p s l0 l1 l2 l3 l4 dead -> pipe_done p = single_done s.
+Proof. exact done_iff. Qed.
+Print Assumptions done_together.
+
+(** ** The earlier stages, usable on their own *)
+(* straight-line programs: R/I/shift/lui/auipc/load/store *)
 Theorem pipe_refines_single_straightline_partial : forall P s n,
   Forall (fun i => straight i = true) P -> wf s -> prog (im s) = P ->
   match single_run n s with
@@ -82,3 +127,35 @@ Theorem pipe_refines_single_straightline_partial : forall P s n,
   end.
 Proof. exact pipe_refines_single_straight. Qed.
 Print Assumptions pipe_refines_single_straightline_partial.
+
+(* every supported instruction except ecall *)
+Theorem pipe_refines_single_noecall_partial : forall P s n,
+  Forall (fun i => noecall i = true) P -> wf s -> prog (im s) = P ->
+  match single_run n s with
+  | (s', Done) => exists c p, (c <= 8 * n + 8)%nat /\
+      pipe_run c (pipe_init s true) = (p, PDone) /\ arch_agree p s' /\
+      pipe_trace c (pipe_init s true) = single_trace n s
+  | (s', Faulted f) => exists c p, (c <= 8 * n + 8)%nat /\
+      pipe_run c (pipe_init s true) = (p, PFaulted f) /\
+      regs (pst p) = regs s' /\ ms (pst p) = ms s' /\ out (pst p) = out s'
+  | (_, OutOfFuel) => True
+  end.
+Proof. exact pipe_refines_single_noecall. Qed.
+Print Assumptions pipe_refines_single_noecall_partial.
+
+(** ** A concrete run (closed computation): hazards, store/load, a taken branch, jal, a printing and
+    an exiting ecall; both machines retire the same twelve instructions *)
+Definition c02_example : list instr :=
+  [ II ADDI 10 0 5; II ADDI 17 0 1; IEcall; IBranch BEQ 0 0 8; II ADDI 1 0 1;
+    ILui 6 16; IR ADD 2 10 10; IStore SW 6 2 4; ILoad LW 3 6 4; IR ADD 4 3 3;
+    IJal 5 8 0; II ADDI 1 0 7; II ADDI 17 0 10; IEcall; II ADDI 1 0 9 ].
+Theorem c02_example_runs :
+  let s := init_st c02_example (MFlat []) None in
+  single_trace 50 s = [0; 4; 8; 12; 20; 24; 28; 32; 36; 40; 48; 52] /\
+  pipe_trace 100 (pipe_init s true) = [0; 4; 8; 12; 20; 24; 28; 32; 36; 40; 48; 52] /\
+  snd (single_run 50 s) = Done /\ snd (pipe_run 100 (pipe_init s true)) = PDone /\
+  regs (pst (fst (pipe_run 100 (pipe_init s true)))) = regs (fst (single_run 50 s)) /\
+  out (pst (fst (pipe_run 100 (pipe_init s true)))) = [53] /\
+  exitc (pst (fst (pipe_run 100 (pipe_init s true)))) = Some 0.
+Proof. vm_compute. repeat split. Qed.
+Print Assumptions c02_example_runs.
